@@ -176,8 +176,8 @@ class _Rec(pickle._Unpickler):
         self.log.append({"e": "persid", "pid": canon(pid)})
         return Stub(self.log, ("pers", pid))
 
-    def _rec(self):
-        if self.stack:              # what the last opcode produced or touched: calls and containers being assembled
+    def _rec(self, produced=True):
+        if self.stack and produced:     # what the last opcode produced or touched: calls and containers being assembled
             self.check_stale(self.stack[-1])
         marks, pos = [], 0
         for frame in self.metastack:
@@ -186,18 +186,20 @@ class _Rec(pickle._Unpickler):
         self.steps.append({"depth": pos + len(self.stack), "marks": marks, "keys": sorted(self.memo)})
 
 
-def _wrap(f):
+def _wrap(f, key=None):
+    discards = key in (pickle.POP[0], pickle.POP_MARK[0])      # they only uncover what was already there
+
     def g(self):
         try:
             f(self)
         except pickle._Stop:
-            self._rec()
+            self._rec(produced=False)       # STOP popped the result: what is left below it was not produced (or used) now
             raise
-        self._rec()
+        self._rec(produced=not discards)
     return g
 
 
-_Rec.dispatch = {k: _wrap(f) for k, f in pickle._Unpickler.dispatch.items()}
+_Rec.dispatch = {k: _wrap(f, k) for k, f in pickle._Unpickler.dispatch.items()}
 
 
 def run_ref(data):
